@@ -20,7 +20,9 @@ Has(f, x) == x \in DOMAIN f
 table == FoldLeft(LAMBDA t, e : IF e.ev = "seq" /\ ~Has(t, Key(e)) THEN (Key(e) :> e.res) @@ t ELSE t, <<>>, Trace)
 \* An operation made on an object with a history of its own (an encoder value that has already been used, also for a call
 \* that failed half way) and the same operation on a new object: "exactly the result it returns when run alone".
-AloneOf == ("wkt.Encoder.reused" :> "wkt.Encoder.alone")
+\* Results are values: the encoders' results for an argument, digested after every encoder has been called again for another
+\* geometry ("kept"), are what they were at the return ("now").
+AloneOf == ("wkt.Encoder.reused" :> "wkt.Encoder.alone") @@ ("encoders.kept" :> "encoders.now")
 Init == i = 1 /\ bad = 0 /\ shared = <<>> /\ dirty = {} /\ finals = {}
 \* Only the call that CAUSES a deviation is blamed: once an argument has been modified (dirty), later calls on
 \* it are not compared any more - their results and snapshots are consequences, not further violations.
